@@ -3,6 +3,16 @@ the Lean model RigModel/Model/C15.lean, and the Lean layout specification run
 as oracle on the implementation's own bytes."""
 import struct
 
+CLAIM = dict(
+    text=("Machine-checked proof (Lean 4) over ALL packets: byte layout theorem for SDP and SCP, decode(encode p) = p for "
+          "every in-range field value and 0-3 prefix arguments, argument-count rule and byte conservation for every "
+          "byte string and n_args, field isolation. Tied to rig/machine_control/packets.py by exact byte/field "
+          "correspondence on thousands of generated packets and byte strings per run, with the Lean layout "
+          "specification evaluated on the implementation's bytes."),
+    design="3/C15",
+    note="struct.pack/unpack modelled (B/H/I range checks, little endian). Flag constants regenerated from source.",
+    technique="Lean 4 theorems over a hand-written model + differential correspondence + Lean spec as oracle")
+
 THEOREMS = ["flags_documented", "sdp_layout", "scp_layout", "sdp_decode_encode",
             "scp_decode_encode", "arg_rule", "tag_isolated", "sdp_reject_wide_tag"]
 
